@@ -25,7 +25,7 @@ PROP = dict(
          "model drives; adapt.converge: one (kind, len, system, system length). Non-trivial = the case ran to the end of its horizon with all "
          "identities judged (every case has >= 2 non-zero input samples); cases whose LMS step is outside the stable range "
          "(mu*max||u||^2 >= 2) keep the identities but skip the reference comparison (counted in path_histogram), RLS comparisons stop once the "
-         "Frobenius condition estimate of the reference exceeds 1e8 (counted)",
+         "Frobenius condition estimate of the reference exceeds 1e6 (counted; DESIGN said 1e8, but the double recursion errs like cond*eps and the dense box left only a 3.6x margin there)",
     bounds=dict(
         quick="{LMS mu{0.01,0.1,0.5} x leak{1,0.999,0.9}; NLMS mu{0.01,0.1,0.5,1} x leak{1,0.999,0.9}; RLS lambda{0.9,0.95,0.99,1} x delta{1e-2,1,1e2,1e4}} "
               "x {real,complex} x len{2,3,4,8,16} x x-letters{LCG white, sinusoid, impulse train} x d-letters{system impulse, decaying/rotating, dense, independent}, "
@@ -34,10 +34,19 @@ PROP = dict(
               "LMS(mu 0.1)/NLMS(mu 0.5) with leak f and RLS(delta 1) with lambda f, (f, horizon) in {(0.5, 1300), (0.9, 8500)}, len{2,4}, real/complex, every sample judged "
               "(finite y/e/coeffs(), identities, recursion); rls.batch on the RLS part; histories: len{2,3,4} x whole box x 4 letter pairs (incl. a white letter whose level steps by 20 dB between granules: 0.01, 0.1, 1, ...) x all 32 framings of 6 granules "
               "(2 samples each) x all 2^frames lock schedules x 3 coeffs() read policies {after every frame, only at the end, only after locked frames} (3*486 histories + 64 per-sample drives per case) + every history re-run with a rejected call process(x',d'), len(x') != len(d') (x' longer / shorter), inserted at every frame boundary in turn, len{8,16}: 6 parameter sets x 4 granules of len/2+1; "
+              "adapt.stream: LONG STREAMS - 140 000 samples on one object (above the 4096 and 65 536 thresholds), len 4, LMS(mu 0.05, leak 0.999) / NLMS(mu 0.5) / RLS(lambda 0.99), "
+              "real and complex, fed (a) in one call and (b) in frames of 1000, every y/e sample and every coeffs() read against the long-double recursion; "
               "convergence: len 2..16, 32, 64 x NLMS(mu 1, leak 1; 40*len samples) / RLS(lambda 1, delta 1e4; 4*len samples) x real/complex x 3 systems x system length {len, len/2, 1}",
-        thorough="as quick with len{2,3,4,5,6,8,12,16,24,32,48,64}, horizon 64; adapt.long with len{2,3,4,8,16} and 1000 samples and additionally (f, horizon) = (0.99, 90000); histories with granule sizes 1, 2, 3 (6 granules) and 7 granules of 2 samples "
-                 "(3*1458 histories + 128 drives per case), long filters also 32 and 64; convergence for every len 2..64"),
-    deadline=dict(quick=150, thorough=1500),
+        thorough="adapt.step / rls.batch: dense box {LMS mu{0.005,0.01,0.05,0.1,0.2,0.5} x leak{1,0.9999,0.999,0.99,0.9}; NLMS mu{0.01,0.05,0.1,0.25,0.5,1,1.5} x the same leaks; "
+                 "RLS lambda{0.9,0.95,0.98,0.99,0.999,1} x delta{1e-2,1e-1,1,10,1e2,1e3,1e4}} (107 configurations) x real/complex x "
+                 "len{2,3,4,5,6,7,8,10,12,16,20,24,32,40,48,64} x 12 letter pairs, horizon 64; adapt.long with len{2,3,4,8,16} and 1000 samples and (f, horizon) up to (0.99, 90000); "
+                 "adapt.stream with len{2,4,8} and frames {one call, 1000, 4097, 65536}; histories (each = all framings x all 2^frames lock schedules x 3 read policies + a rejected "
+                 "call at every boundary, x' longer and shorter): design box x len{2,3,4} x 4 letter pairs x {6 granules of 1, 2, 3 samples; 7 granules of 2 (2^7 granule lock patterns, "
+                 "3*1458 histories); 8 granules of 1 (2^8 lock patterns, 128 framings, 3*4374 histories + ~40 000 rejected-call runs per case)}, the other 70 configurations of the dense box "
+                 "x len{2,3,4} and the design box x len{5,6} with 6 granules of 2; long filters len{8,12,16,24,32,48,64} x 6 parameter sets x 4 and 5 granules of len/2+1; "
+                 "convergence for every len 2..64 x {NLMS mu 1 (40 len), NLMS mu 0.5 and 1.5 (80 len), RLS lambda 1 delta 1e4 (4 len)} x real/complex x 3 systems x "
+                 "system length {len, len/2, 1} x 3 realisations of the white letter"),
+    deadline=dict(quick=150, thorough=2400),
     assumptions=COMMON_ASSUME + [
         "output convention of both headers: y[k] = sum_j coeffs()[j] x[k-j] (plain product, no conjugate); updates use conj(u) (LMS/NLMS) and conj(g) (RLS)",
         "'a-priori' is decided by reading coeffs() before each one-sample call: |y - sum_j c[j] x[k-j]| <= (8 + 2 len) eps sum|c||x|; "
@@ -49,6 +58,7 @@ PROP = dict(
         "a call rejected with an exception (len(x) != len(d)) must leave the object unchanged: y, e and every coeffs() value of the history are compared "
         "bit for bit with the same history without the rejected call",
         "reference recursions compared at 1e-9 relative (norm-wise for coeffs, relative to ||c|| ||u|| + |d| for y and e); the NLMS regulariser is the header's eps()",
+        "thorough additionally demands convergence of NLMS(mu 0.5 and 1.5, leak 1) after 80*len samples (contraction mu(2-mu)/len per sample gives < 1e-20)",
         "convergence is demanded only for NLMS(mu=1, leak=1) after 40*len samples and RLS(lambda=1, delta=1e4) after 4*len samples of a unit-variance "
         "white letter with a noise-free system no longer than the filter (horizons from DESIGN C12; the statement gives none)",
         "the normal-equation comparison is judged for real data only (statement); complex data serve as oracle self-check",
